@@ -50,7 +50,9 @@ fn num_val(t: &Tok) -> Option<(f64, String)> {
 /// try to read `rgb( … )`, `rgba( … )`, `hsl( … )`, `hsla( … )` with plain numeric arguments starting at toks[i] (a Function token)
 fn color_fn(toks: &[Tok], i: usize) -> Option<([f64; 4], usize)> {
     let Tok::Function(name) = &toks[i] else { return None };
+    // (`-rgb(0, 0, 0)` is what a unary minus in front of a colour prints; the other style prints `-#000`)
     let name = name.to_ascii_lowercase();
+    let name = name.strip_prefix('-').unwrap_or(&name).to_string();
     if !matches!(name.as_str(), "rgb" | "rgba" | "hsl" | "hsla") {
         return None;
     }
@@ -132,6 +134,9 @@ pub fn normalise(text: &str) -> Vec<N> {
             },
             Tok::Function(f) => match color_fn(&toks, i) {
                 Some((c, j)) => {
+                    if f.starts_with('-') {
+                        out.push(N::T("-".into()));
+                    }
                     out.push(N::Color(c));
                     i = j;
                     continue;
